@@ -295,6 +295,12 @@ func shapes(v ssa.Value, depth int) []strAlt {
 						out = append(out, strAlt{parts: []strPart{{kind: kind, text: FuncName(x.Call.StaticCallee()) + "(URL.RawPath): " + why, src: x}}, facts: a.facts})
 						continue
 					}
+				} else if kind == "query" {
+					if verifyPathByteEscaper(theWorld, x.Call.StaticCallee()) == "" {
+						kind = "queryesc"
+					} else {
+						kind = "unknown"
+					}
 				} else if kind != "const" {
 					kind = "unknown"
 				}
@@ -431,8 +437,8 @@ func checkC08Location(w *World, r *Report) {
 		ru.Fail("calls of localRedirect", w.Pos(fn.Pos()), "add-slash and remove-slash redirects", fmt.Sprintf("%d", n))
 	}
 	// the sink in localRedirect, and C08.4
-	ru4 := r.Rule("C08.4", "query kept: localRedirect appends \"?\" + URL.RawQuery to the reference when the query is not empty, and the Location header is set (through hexEscapeNonASCII) from that value", 1)
-	okSink, okQuery := false, false
+	ru4 := r.Rule("C08.4", "query kept: localRedirect appends \"?\" + URL.RawQuery, passed through the byte escaper that is verified for RawPath, to the reference when the query is not empty, and the Location header is set (through hexEscapeNonASCII) from that value", 1)
+	okSink, okQuery, rawQuery := false, false, false
 	eachInstr(local, func(in ssa.Instruction) {
 		c, ok := in.(*ssa.Call)
 		if !ok || !isMethodNamed(calleeObj(c), "net/http", "Header", "Set") {
@@ -449,6 +455,9 @@ func checkC08Location(w *World, r *Report) {
 			if len(a.parts) > 0 && a.parts[0].kind == "param" && a.parts[0].src == ssa.Value(local.Params[2]) {
 				okSink = true
 				if len(a.parts) == 3 && a.parts[1].kind == "const" && a.parts[1].text == "?" && a.parts[2].kind == "query" {
+					rawQuery = true
+				}
+				if len(a.parts) == 3 && a.parts[1].kind == "const" && a.parts[1].text == "?" && a.parts[2].kind == "queryesc" {
 					// on the edge where the query is non-empty
 					for _, f := range a.facts {
 						if bo, ok := f.Cond.(*ssa.BinOp); ok {
@@ -462,7 +471,11 @@ func checkC08Location(w *World, r *Report) {
 		}
 	})
 	ru.Check("Location sink in localRedirect", w.Pos(local.Pos()), "Location = escape(reference [+ \"?\" + RawQuery])", okSink, fmt.Sprint(okSink))
-	ru4.Check("query string in localRedirect", w.Pos(local.Pos()), "\"?\" + URL.RawQuery appended when the query is not empty", okQuery, fmt.Sprint(okQuery))
+	whyQ := fmt.Sprint(okQuery)
+	if rawQuery && !okQuery {
+		whyQ = "URL.RawQuery is appended verbatim: it is what the client sent, and a '#' in it (a request target has no fragment) makes the client cut the query there"
+	}
+	ru4.Check("query string in localRedirect", w.Pos(local.Pos()), "\"?\" + the RawQuery with its illegal bytes escaped, appended when the query is not empty", okQuery, whyQ)
 }
 
 // checkC08TsrParams: the matchers save the candidate's parameters whenever they record a trailing-slash candidate.
